@@ -438,6 +438,8 @@ theorem unacceptable_certs_never_resume (m : Mode) (s : Server) (hello : List Su
     subst e
     exact absurd ⟨h1, h2, h3⟩ g.2.2.2.2.2.2.2.2.2.2
 
+theorem gm_not_in_tls_defaults : ∀ s ∈ gmAll, s ∉ tlsDefaults := by decide
+
 /-- the GMSSL default: without an explicit `CipherSuites` the gate consults the TLS default list, so a GMSSL
     session is never resumed (it silently falls back to a full handshake) — the reason the property speaks of
     "a configuration that explicitly lists the session's suite" -/
@@ -453,8 +455,8 @@ theorem gm_default_never_resumes (s : Server) (hello : List Suite) (t : Ticket) 
     rw [h1] at h2
     unfold resumeSupported at h2
     rw [h] at h2
-    simp only [Option.getD_none, tlsDefaults, gmAll, List.mem_cons, List.mem_nil_iff, or_false] at h2 hg
-    rcases h2 with h2 | h2 | h2 | h2 <;> rcases hg with hg | hg | hg | hg <;> rw [h2] at hg <;> cases hg
+    simp only [Option.getD_none] at h2
+    exact absurd h2 (gm_not_in_tls_defaults _ hg)
 
 /-- Non-vacuity (tests): a full handshake, a resumption, a rotation that retires the key, a fallback. -/
 example : run .gm (initWorld 2) [.suites 0 (some [0xe013]), .conn ⟨0, some [0xe013], 0, false⟩,
